@@ -426,9 +426,9 @@ func check(r *core.Run, prop string) {
 func check16(r *core.Run) {
 	check(r, "C16")
 	r.Rule = "Text part as C02 but comparing positions: the file:line:col of every statement of every accepted text, and the leading file:line:col of the first error for every rejected text with exactly one token-level fault (invalid escape, unterminated string or comment, the first token the grammar does not allow; a `+` not followed by a quoted string is disputable and skipped; end-of-input reports are outside the claim). " + r.Rule
-	semantic(r)
+	Semantic(r)
 }
 
 // semantic is filled in by the Ast family part of C16 (positions in errors
 // from building and resolving a module).
-var semantic = func(r *core.Run) {}
+var Semantic = func(r *core.Run) {}
